@@ -49,6 +49,18 @@ def main():
         n = errors = 0
         first = ""
         try:
+            if req["kind"] == "pyeval":
+                class _Self(object):
+                    pass
+                env = dict((k, v) for k, v in req["vars"].items() if "." not in k)
+                me = _Self()
+                me._DELIMITER = req["vars"].get("self._DELIMITER", "")
+                env["self"] = me
+                for l in req["lines"]:
+                    exec(l, {}, env)
+                sys.stdout.write(json.dumps({"files": 0, "errors": 0, "first": "", "topic": env["topic"]}) + "\n")
+                sys.stdout.flush()
+                continue
             if req["kind"] == "py":
                 for p in walk(req["dir"], ".py"):
                     n += 1
